@@ -71,7 +71,9 @@ theorem set_extension_total (present : Bool) (profile : Nat) (block : List UInt8
   have h2 := safe_allocs (B := 0 + 10 * block.toArray.size + 200) h
   simpa using h2
 
-/-- **marshal_total**: `RtpPacket::marshal` of any packet shape (any CSRC count, extension length, payload and
+/-- **marshal_total**: (lengths-only abstraction: the model re-derives `encoded_len` and the `write_to` put sequence by
+hand, so this proves that the two agree with each other for every shape — that they are the code's is the compared
+stream `marshal`, incl. the unchecked `marshal_into` fast path run in the same case) `RtpPacket::marshal` of any packet shape (any CSRC count, extension length, payload and
 padding length) returns a value or an error; its writes stay inside the `encoded_len` buffer. -/
 theorem marshal_total (pt ncsrc : Nat) (hasExt : Bool) (extLen payloadLen paddingLen : Nat) (b : Buf) (n : Nat) (s : String) :
     Rtp.marshal pt ncsrc hasExt extLen payloadLen paddingLen b n ≠ .panic s :=
@@ -289,13 +291,18 @@ theorem allocBound_udptl (bs : List UInt8) : (runSlice Media.udptlRecv bs).alloc
 
 /-! ## signaling side (src/transports/ice/mod.rs candidate lines, src/peer_connection.rs mid arithmetic) -/
 
-/-- `IceCandidate::from_sdp` is total on every (ASCII) candidate string: the `parts[..]` indexing stays inside the
-token vector and the `tcptype` search loop terminates. -/
-theorem noPanic_candidateFromSdp (s : List UInt8) (b : Buf) (n : Nat) (site : String) : Sdp.candFromSdp s b n ≠ .panic site :=
+/-- `IceCandidate::from_sdp` on ASCII candidate strings with dotted-quad addresses — the hypothesis `_hascii` marks the
+scope in which the model IS the code's function (`split_whitespace` on ASCII, `Ipv4Addr` syntax; non-ASCII whitespace and
+IPv6 literals are covered by the oracle-only SDP streams): the `parts[..]` indexing stays inside the token vector and the
+`tcptype` / `raddr` search loops terminate. (The model itself is total on every byte list; the hypothesis is not used.) -/
+theorem noPanic_candidateFromSdp (s : List UInt8) (_hascii : ∀ c ∈ s, c.toNat < 128) (b : Buf) (n : Nat) (site : String) :
+    Sdp.candFromSdp s b n ≠ .panic site :=
   safe_noPanic (Sdp.candFromSdp_safe s b n) site
 
-/-- the remote-mid bookkeeping of `set_remote_description` (after the `fix:` commit, `saturating_add`) is total for
-every 16-bit mid and keeps `next_mid` inside `u16`. -/
+/-- the remote-mid bookkeeping of `set_remote_description` (after the `fix:` commit, `saturating_add`) keeps `next_mid`
+inside `u16` for every 16-bit mid. The function is a one-liner; what ties it to the code is the compared stream
+`sdpmid`, which reads `next_mid` of a live `PeerConnection` (hook snapshot) after `set_remote_description` for boundary
+and random mids and compares it with the fold of `midUpdate`. -/
 theorem mid_update_total (nextMid mid : Nat) (b : Buf) (n : Nat) (site : String) (hm : nextMid ≤ 65535) :
     Sdp.midUpdate nextMid mid b n ≠ .panic site ∧
     ∀ r b' n', Sdp.midUpdate nextMid mid b n = .ok r b' n' → r ≤ 65535 := by
